@@ -32,6 +32,7 @@ import (
 	"Havoc/pkg/packager"
 	"Havoc/pkg/profile"
 	"Havoc/pkg/utils"
+	"Havoc/pkg/verifhook"
 )
 
 func NewTeamserver(DatabasePath string) *Teamserver {
@@ -491,6 +492,7 @@ func (t *Teamserver) Start() {
 	// This should hold the Teamserver as long as the WebSocket Server is running
 	logger.Debug("Wait til the server shutdown")
 
+	verifhook.Point("server.ready")
 	<-ServerFinished
 }
 
@@ -518,6 +520,7 @@ func (t *Teamserver) handleRequest(id string) {
 		return
 	}
 
+	verifhook.Point("ws.first_read")
 	pk := client.Packager.CreatePackage(string(NewClient))
 
 	if t.Profile != nil {
@@ -582,6 +585,7 @@ func (t *Teamserver) handleRequest(id string) {
 	t.EventAppend(packageNewUser)
 	t.EventBroadcast(id, packageNewUser)
 
+	verifhook.Point("ws.before_replay")
 	t.SendAllPackagesToNewClient(id)
 
 	for {
@@ -753,6 +757,7 @@ func (t *Teamserver) SendEvent(id string, pk packager.Package) error {
 	if isOk {
 		client := value.(*Client)
 		client.Mutex.Lock()
+		verifhook.Point("ws.send.locked")
 
 		err = client.Connection.WriteMessage(websocket.BinaryMessage, buffer.Bytes())
 		if err != nil {
